@@ -68,8 +68,8 @@ PROPS = {
         "assumptions": COMMON_ASSUMPTIONS + ["LP answers and mirror_points results are oracles of the model; the replay feeds it the answers logged by the hooks (H1 LP log, H2 state trace); every logged Infeasible answer is checked exactly to be sound by a margin of 1e-6", "pruning is binary-only in the crate (K = 2)"],
     },
     "C08": {
-        "kinds": [("H08", 500, 6000)],
-        "rule": "one history weighted towards reduce after compositions; values before/after, node count, idempotence, no remaining equal-terminal siblings; non-trivial = at least 3 steps or a pruning step; distinct by case text",
+        "kinds": [("H08", 500, 6000), ("H08R", 500, 6000)],
+        "rule": "one history weighted towards reduce after compositions (H08), or starting from a deep tree with re-grown sub-trees (arena indices not in insertion order) whose terminals come from a palette of 3 maps with near-duplicates differing only in a bias or one coefficient, so that merges cascade over several levels (H08R); values before/after, node count, idempotence, no remaining equal-terminal siblings; non-trivial = at least 3 steps or a pruning step; distinct by case text",
         "assumptions": COMMON_ASSUMPTIONS + ["LP answers and mirror_points results are oracles of the model; the replay feeds it the answers logged by the hooks (H1 LP log, H2 state trace); every logged Infeasible answer is checked exactly to be sound by a margin of 1e-6", "pruning is binary-only in the crate (K = 2)"],
     },
     "C11": {
